@@ -46,7 +46,7 @@ func ParseKey(s string) (int, int) {
 // non-empty when the run left the domain on which the result is determined
 // (the case must then be skipped and counted); err reports generator or
 // evaluator trouble (harness fault, never a violation).
-func Build(c *wgen.ExecCase, cfgMod func(*wref.Config)) (out *Case, res *wref.Result, discard string, err error) {
+func Build(c *wgen.ExecCase, cfgMod func(*wref.Config), extraDiscard ...func(*wref.Events) string) (out *Case, res *wref.Result, discard string, err error) {
 	cfg := wref.Config{Module: c.Mod, Entry: c.Entry, Buffers: c.Buffers, NumWorkgroups: c.NumWG, StepLimit: 1 << 21}
 	if cfgMod != nil {
 		cfgMod(&cfg)
@@ -60,6 +60,11 @@ func Build(c *wgen.ExecCase, cfgMod func(*wref.Config)) (out *Case, res *wref.Re
 	}
 	if d := res.Ev.OutOfDomain(); d != "" {
 		return nil, res, d, nil
+	}
+	for _, f := range extraDiscard {
+		if d := f(&res.Ev); d != "" {
+			return nil, res, d, nil
+		}
 	}
 	n := c.Entry.WG[0] * c.Entry.WG[1] * c.Entry.WG[2]
 	if n > 1 || c.NumWG[0]*c.NumWG[1]*c.NumWG[2] > 1 {
